@@ -29,6 +29,9 @@ type blockGen struct {
 	// candidate mode (worker loop): C lines with per-key running nonces instead of T lines
 	cand      bool
 	candNonce map[int]uint64
+	occ       map[int]map[uint64]bool // key -> nonces whose creation address is pre-occupied
+	rich      []int                   // keys holding >= 100 000 YOU
+	nearMax   map[int]int64           // validator index -> headroom (YOU) below MaxStakes[role] (validators set up close to the ceiling)
 }
 
 func (g *blockGen) emit(format string, a ...interface{}) bool {
@@ -99,6 +102,20 @@ func (g *blockGen) setup() bool {
 		if bal.Sign() > 0 {
 			g.funded = append(g.funded, k)
 		}
+		if bal.Cmp(you(100000)) >= 0 {
+			g.rich = append(g.rich, k)
+		}
+		if r.Chance(30) { // a creation by this key at one of its first nonces collides with an existing account / contract
+			n := nonce + uint64(r.Intn(3))
+			g.emit("OCC %d %d %s", k, n, []string{"n", "c"}[r.Intn(2)])
+			if g.occ == nil {
+				g.occ = map[int]map[uint64]bool{}
+			}
+			if g.occ[k] == nil {
+				g.occ[k] = map[uint64]bool{}
+			}
+			g.occ[k][n] = true
+		}
 	}
 	if len(g.funded) == 0 {
 		g.emit("A 0 0 %s", you(1000000))
@@ -108,7 +125,19 @@ func (g *blockGen) setup() bool {
 	for i := 0; i < nv; i++ {
 		op := g.funded[r.Intn(len(g.funded))]
 		role := r.Range(1, 3)
-		g.emit("VAL %d %d %d %d %d %d", op, i, role, r.Range(600, 5000), []int{1, 1, 1, 0}[r.Intn(4)], r.Intn(2))
+		token := r.Range(600, 5000)
+		if len(g.rich) > 0 && r.Chance(40) {
+			// a validator just below its stake ceiling, operated by a rich key: an affordable deposit / delegation is then
+			// refused by the ceiling check, which comes AFTER the balance check in the handlers
+			op = g.rich[r.Intn(len(g.rich))]
+			headroom := r.Intn(300)
+			token = int(paramsFor(g.version).MaxStakes[params.ValidatorRole(role)]) - headroom
+			if g.nearMax == nil {
+				g.nearMax = map[int]int64{}
+			}
+			g.nearMax[i] = int64(headroom)
+		}
+		g.emit("VAL %d %d %d %d %d %d", op, i, role, token, []int{1, 1, 1, 0}[r.Intn(4)], r.Intn(2))
 		g.vals = append(g.vals, i)
 		g.valOp[i] = op
 	}
@@ -167,7 +196,14 @@ func (g *blockGen) stakingData(key int, nonce uint64) ([]byte, string) {
 		return enc(staking.ValidatorCreate, m), "create"
 	case 2:
 		vi, _ := pickVal()
-		m := &staking.TxValidatorDeposit{MainAddress: valAddr(vi), Value: you(int64(r.Range(1, 800))), Nonce: nonce}
+		val := int64(r.Range(1, 800))
+		if h, ok := g.nearMax[vi]; ok && r.Chance(60) {
+			val = h + int64(r.Range(0, 2)) // at / just above the ceiling
+			if val <= 0 {
+				val = 1
+			}
+		}
+		m := &staking.TxValidatorDeposit{MainAddress: valAddr(vi), Value: you(val), Nonce: nonce}
 		m.Sign = sign(m)
 		return enc(staking.ValidatorDeposit, m), "deposit"
 	case 3:
@@ -188,7 +224,14 @@ func (g *blockGen) stakingData(key int, nonce uint64) ([]byte, string) {
 		if len(g.vals) > 0 {
 			vi = g.vals[r.Intn(len(g.vals))]
 		}
-		return enc(staking.DelegationAdd, &staking.TxDelegation{Validator: valAddr(vi), Value: you(int64(r.Range(5, 400)))}), "delegation-add"
+		val := int64(r.Range(5, 400))
+		if h, ok := g.nearMax[vi]; ok && r.Chance(60) {
+			val = h + int64(r.Range(0, 2))
+			if val < 10 {
+				val = 10 + h
+			}
+		}
+		return enc(staking.DelegationAdd, &staking.TxDelegation{Validator: valAddr(vi), Value: you(val)}), "delegation-add"
 	default:
 		vi := 99
 		if len(g.vals) > 0 {
@@ -277,7 +320,16 @@ func (g *blockGen) nextTx() bool {
 		}
 	}
 	txKind := r.Weighted([]int{25, 22, 12, 18, 9})
-	if txKind == 3 && len(g.vals) > 0 && r.Chance(60) {
+	if txKind == 3 && len(g.nearMax) > 0 && len(g.rich) > 0 && r.Chance(35) {
+		// a rich delegator (not necessarily the operator) for the near-ceiling validators
+		key = g.rich[r.Intn(len(g.rich))]
+		from = addrs[key]
+		nonce = b.st.GetNonce(from)
+		bal = b.st.GetBalance(from)
+		if n, ok := g.candNonce[key]; ok && g.cand {
+			nonce = n
+		}
+	} else if txKind == 3 && len(g.vals) > 0 && r.Chance(60) {
 		key = g.valOp[g.vals[r.Intn(len(g.vals))]]
 		from = addrs[key]
 		nonce = b.st.GetNonce(from)
@@ -285,6 +337,9 @@ func (g *blockGen) nextTx() bool {
 		if n, ok := g.candNonce[key]; ok && g.cand {
 			nonce = n
 		}
+	}
+	if g.occ[key][nonce] && r.Chance(70) {
+		txKind = 2 // creation onto the occupied address
 	}
 	switch txKind {
 	case 0:
@@ -319,6 +374,9 @@ func (g *blockGen) nextTx() bool {
 	case 2:
 		i := r.Intn(len(initCodes))
 		kind = fmt.Sprintf("create:%d", i)
+		if g.occ[key][nonce] {
+			kind = "create-collision"
+		}
 		data = initCodes[i]
 		if r.Chance(40) {
 			someValue()
